@@ -120,7 +120,7 @@ for (_p, _c) in CLASSES:
     if _c.startswith("Base") or _c.startswith("_"):
         # abstract bases may refuse to be constructed on their own (they read class attributes defined by subclasses)
         _may.append(("AttributeError", lambda A: True))
-    contract(f"{_p}::{_c}.__init__", "C04", cases=["-"], inputs=_ctor_inputs(_p, _c),
+    contract(f"{_p}::{_c}.__init__#ctor", "C04", cases=["-"], inputs=_ctor_inputs(_p, _c),
              ensures=[("stores-every-argument-under-its-own-name-and-is-unfitted", _ctor_post)],
              may_raise=_may, best_effort=True)
 
@@ -283,7 +283,7 @@ def _guard_targets():
 
 
 for (_p, _c, _m) in _guard_targets():
-    contract(f"{_p}::{_c}.{_m}", "C04", cases=["fresh"], inputs=_guard_inputs(_p, _c, _m),
+    contract(f"{_p}::{_c}.{_m}#not-fitted-guard", "C04", cases=["fresh"], inputs=_guard_inputs(_p, _c, _m),
              raises=[("NotFittedError", lambda A: True)], expect={"fresh": "raise"},
              best_effort=True, modular=False,
              notes=["apply-type method on a freshly constructed estimator: every path must raise NotFittedError"])
